@@ -176,6 +176,12 @@ def run(tier, seed):
             j2 = gen.job(0, dict(j["prog"], edges=ed), j["provided"], mode=j["mode"], select=None if j["select"] == IR.UNSET else j["select"])
             declared.append((j2, tag + "/declared-edges"))
     pairs += declared
+    # several sources for one name (provided > bound > default), with None / falsy winning values
+    prec = []
+    for shape, tag in gen.enum_dags(2):
+        for prog, provided, a in gen.dag_jobs_precedence(shape):
+            prec.append((gen.job(0, prog, provided, mode=("sync", "async")[len(prec) % 2]), f"precedence/{tag}/{a}"))
+    pairs += prec if thorough else prec[:: 3]
     for i, (j, _) in enumerate(pairs):
         j["id"] = i + 1
     pairs += list(jobs_random(rng, 3000 if thorough else 400, len(pairs)))
@@ -184,7 +190,7 @@ def run(tier, seed):
     ctx.assumptions += ["node bodies are harness-generated pure string functions (Herbrand terms)",
                         "TLC evaluates the dependency-order denotation (HGProps!Denote) and checks the engine model against it (INVARIANT L1Holds); the real run is compared with the denotation itself"]
     return ctx.finish(
-        rule="all acyclic gate-free programs with 2-3 single-output nodes over externals {x,y} (inputs of size 1-2 from externals and earlier outputs), multi-output / side-effect-only / early-start / swapped-parameter / declared-edges variants, every assignment of provided|bound|default|absent to each external, both runners"
+        rule="all acyclic gate-free programs with 2-3 single-output nodes over externals {x,y} (inputs of size 1-2 from externals and earlier outputs), multi-output / side-effect-only / early-start / swapped-parameter / declared-edges variants, every assignment of provided|bound|default|absent to each external, assignments with several sources per name (provided > bound > default) incl. None / falsy winning values, both runners"
              + (", every node-list permutation" if thorough else "") + "; plus seeded random DAGs of 3-7 nodes; distinct = structural hash of (program, provided, select), non-trivial = >= 2 nodes",
         exhaustive=False)
 
